@@ -17,10 +17,13 @@ type legacyHandler struct {
 	eventMgr event.Manager
 
 	rwMutex
-	prevResourceResponse bool
-	outstandingPacks     *deque.Deque[*Info]
-	pendingPack          *Info
-	appliedPack          *Info
+	// prevResourceResponse is the client's last accept (true) / decline (false)
+	// decision; it only counts once the client made one (hasPrevResourceResponse).
+	prevResourceResponse    bool
+	hasPrevResourceResponse bool
+	outstandingPacks        *deque.Deque[*Info]
+	pendingPack             *Info
+	appliedPack             *Info
 }
 
 func newLegacyHandler(player Player, eventMgr event.Manager) *legacyHandler {
@@ -91,7 +94,7 @@ func (h *legacyHandler) tickResourcePackQueueLocked() error {
 	queued, ok := h.outstandingPacks.Front()
 	if ok {
 		// Check if the player declined a resource pack once already
-		if !h.prevResourceResponse {
+		if h.hasPrevResourceResponse && !h.prevResourceResponse {
 			// If that happened we can flush the queue right away.
 			// Unless its 1.17+ and forced it will come back denied anyway
 			for h.outstandingPacks.Len() > 0 {
@@ -166,9 +169,11 @@ func (h *legacyHandler) onResourcePackResponseLocked(
 	switch bundle.Status {
 	case AcceptedResponseStatus:
 		h.prevResourceResponse = true
+		h.hasPrevResourceResponse = true
 		h.pendingPack = queued
 	case DeclinedResponseStatus:
 		h.prevResourceResponse = false
+		h.hasPrevResourceResponse = true
 	case SuccessfulResponseStatus:
 		h.appliedPack = queued
 		h.pendingPack = nil
